@@ -369,6 +369,7 @@ package quickfix
 //@   requires sessfull(s)
 //@   ensures @reset result == nil ==> s.store.#S == 1 && s.store.#T == 1
 //@   ensures @queue len(s.toSend) == 0
+//@   ensures @counted s.store.#R == old(s.store.#R) + 1
 //@   ensures @state s.State == old(s.State) && s.messageOut == old(s.messageOut) && sessfull(s)
 //@   modifies s.toSend, s.store.#S, s.store.#T, s.store.#R
 
@@ -586,9 +587,9 @@ package quickfix
 //@   ensures @next result != nil && stok(result)
 //@   ensures @sess sessfull(session) && session.State == old(session.State)
 //@   ensures @nodelivery session.application.#n == old(session.application.#n)
-//@   ensures @target (session.store.#T == old(session.store.#T) && session.store.#R == old(session.store.#R)) || session.store.#R > old(session.store.#R)
-//@   ensures @nodup (!fhas(msg.Header.FieldMap, 43)) ==> result is logoutState || result is latentState
-//@   ensures @dupno fhas(msg.Header.FieldMap, 43) && onebyte(fval(msg.Header.FieldMap, 43), 78) ==> result is logoutState || result is latentState
+//@   ensures @mono (session.store.#T >= old(session.store.#T) && session.store.#R == old(session.store.#R)) || session.store.#R > old(session.store.#R)
+//@   ensures @nodup !old(fhas(msg.Header.FieldMap, 43)) ==> result is logoutState || result is latentState
+//@   ensures @dupno old(fhas(msg.Header.FieldMap, 43) && onebyte(fval(msg.Header.FieldMap, 43), 78)) ==> result is logoutState || result is latentState
 
 // common shape of a handler's result: at most one application message accepted, and then the expected number moved on
 // by exactly one; the expected number never moves backwards unless the store was reset
@@ -668,6 +669,10 @@ package quickfix
 //@   atcall SetField @trl fmvals(logon.Trailer.FieldMap)
 //@   atcall SetField @cmp logon.Header.compare != nil && logon.Body.compare != nil && logon.Trailer.compare != nil
 //@   atcall SetField @sess sessfull(s)
+//@   atcall NextSenderMsgSeqNum @rmaps inReplyTo != nil ==> mapsok(inReplyTo)
+//@   atcall NextSenderMsgSeqNum @rhdr inReplyTo != nil ==> fmvals(inReplyTo.Header.FieldMap)
+//@   atcall NextSenderMsgSeqNum @rbody inReplyTo != nil ==> fmvals(inReplyTo.Body.FieldMap)
+//@   atcall NextSenderMsgSeqNum @rtrl inReplyTo != nil ==> fmvals(inReplyTo.Trailer.FieldMap)
 //@   atcall SetField @rmaps inReplyTo != nil ==> mapsok(inReplyTo)
 //@   atcall SetField @rhdr inReplyTo != nil ==> fmvals(inReplyTo.Header.FieldMap)
 //@   atcall SetField @rbody inReplyTo != nil ==> fmvals(inReplyTo.Body.FieldMap)
@@ -676,7 +681,10 @@ package quickfix
 //@   atcall SetField @new fresh(logon) && fresh(logon.Header.tagLookup) && fresh(logon.Body.tagLookup) && fresh(logon.Trailer.tagLookup)
 //@   atcall SetField @type fhas(logon.Header.FieldMap, 35) ==> valid(logon.Header.tagLookup[35]) && valid(fval(logon.Header.FieldMap, 35)) && onebyte(fval(logon.Header.FieldMap, 35), 65)
 //@   ensures @sess sessfull(s) && s.State == old(s.State) && s.messageOut == old(s.messageOut)
-//@   ensures @replykept inReplyTo != nil ==> msgok(inReplyTo)
+//@   ensures @rmaps inReplyTo != nil ==> mapsok(inReplyTo)
+//@   ensures @rhdr inReplyTo != nil ==> fmvals(inReplyTo.Header.FieldMap)
+//@   ensures @rbody inReplyTo != nil ==> fmvals(inReplyTo.Body.FieldMap)
+//@   ensures @rtrl inReplyTo != nil ==> fmvals(inReplyTo.Trailer.FieldMap)
 //@   ensures @nodelivery s.application.#n == old(s.application.#n)
 //@   ensures @target (s.store.#T == old(s.store.#T) && s.store.#R == old(s.store.#R)) || s.store.#R > old(s.store.#R)
 //@   ensures @fromone !old(s.sentReset) && s.sentReset ==> result != nil || (s.store.#S == 2 && s.store.#T == 1)
@@ -780,6 +788,7 @@ package quickfix
 //@   requires @sess sessfull(session)
 //@   atcall send @type (event == 1 ==> fhas(arg1.Header.FieldMap, 35) && onebyte(fval(arg1.Header.FieldMap, 35), 48)) && (event == 0 ==> fhas(arg1.Header.FieldMap, 35) && onebyte(fval(arg1.Header.FieldMap, 35), 49) && fhas(arg1.Body.FieldMap, 112))
 //@   atcall send @when event == 0 || event == 1
+//@   atcall Reset @peer arg0 == session.peerTimer && event == 0
 //@   ensures @next nextState != nil && stok(nextState)
 //@   ensures @sess sessfull(session) && session.State == old(session.State)
 //@   ensures @nodelivery session.application.#n == old(session.application.#n)
